@@ -518,7 +518,16 @@ where
         S: Read,
         R: TransferSyntaxIndex,
     {
-        let mut file = BufReader::new(src);
+        // gather the first 132 bytes (preamble and magic code) beforehand,
+        // because a byte source may deliver them over several short reads,
+        // whereas the detection below looks at a single buffer fill
+        let mut src = src;
+        let mut head = Vec::with_capacity(132);
+        src.by_ref()
+            .take(132)
+            .read_to_end(&mut head)
+            .context(ReadPreambleBytesSnafu)?;
+        let mut file = BufReader::new(std::io::Cursor::new(head).chain(src));
 
         if read_preamble == ReadPreamble::Auto {
             read_preamble = Self::detect_preamble(&mut file).context(ReadPreambleBytesSnafu)?;
